@@ -2,7 +2,7 @@
 """Differential smoke test of the multiprocessing model (not a deciding step):
 runs a handful of micro-scenarios and toasty stages once under REAL
 multiprocessing and under the simulator (a few seeds) and compares the
-observable results.  Writes evidence/_mp_model_diff.json."""
+observable results.  Writes reports/mp_model_diff.json."""
 import json
 import os
 import random
@@ -188,7 +188,7 @@ def main():
     report["scenarios"].append({"name": "toasty_stage_outcomes", "items": len(real), "agree": ok})
     bad += 0 if ok else 1
     report["disagreements"] = bad
-    with open(os.path.join(VERIF, "evidence", "_mp_model_diff.json"), "w") as f:
+    with open(os.path.join(VERIF, "reports", "mp_model_diff.json"), "w") as f:
         json.dump(report, f, indent=1)
     return 1 if bad else 0
 
